@@ -753,7 +753,7 @@ func (h *history) runFan(key func(b int) string) {
 // probeSweep looks up (and tries to delete) keys that differ from a stored key in exactly one byte, for every
 // byte position: absent keys that diverge inside, at the end of, or beyond a compressed path.
 func (h *history) probeSweep() {
-	if strings.HasPrefix(h.cfg.spec, "comp") || len(h.order) == 0 {
+	if len(h.order) == 0 {
 		return
 	}
 	r := h.r
@@ -762,30 +762,64 @@ func (h *history) probeSweep() {
 	if len(keys) > 8 {
 		keys = keys[:8]
 	}
+	isComp := strings.HasPrefix(h.cfg.spec, "comp")
+	var fields []string
+	if isComp {
+		fields = strings.Split(strings.Fields(h.cfg.spec)[1], ",")
+	}
+	probe := func(m string, i int) {
+		if _, ok := h.present[h.canonKey(m)]; ok {
+			return
+		}
+		h.s.exec("get", h.id, m)
+		if i%3 == 0 {
+			h.remove(m)
+			h.s.exec("size", h.id)
+		}
+		h.s.tr.stats["probe-sweep"]++
+	}
+	flip := func(b []byte, i int, noZero bool) []byte {
+		c := append([]byte{}, b...)
+		c[i] ^= byte(1 + r.Intn(3))
+		if c[i] == 0 && noZero {
+			c[i] = 0x7e
+		}
+		return c
+	}
 	for _, lit := range keys {
+		if h.s.dead[h.id] {
+			return
+		}
+		if isComp {
+			parts := strings.Split(lit, ",")
+			n := 0
+			for fi, part := range parts {
+				if part == "nan" || part == "-" {
+					continue
+				}
+				b := unhex(part)
+				for i := 0; i < len(b) && n < 48; i++ {
+					mp := append([]string{}, parts...)
+					mp[fi] = hexLit(flip(b, i, fields[fi] == "s"))
+					if fields[fi] == "f32" || fields[fi] == "f64" {
+						mp[fi] = canonNum(fields[fi], mp[fi])
+					}
+					probe(strings.Join(mp, ","), n)
+					n++
+				}
+			}
+			continue
+		}
 		if lit == "nan" || lit == "-" {
 			continue
 		}
 		b := unhex(lit)
 		for i := 0; i < len(b) && i < 48 && !h.s.dead[h.id]; i++ {
-			c := append([]byte{}, b...)
-			c[i] ^= byte(1 + r.Intn(3))
-			if c[i] == 0 && h.cfg.alpha {
-				c[i] = 0x7e
-			}
-			m := hexLit(c)
+			m := hexLit(flip(b, i, h.cfg.alpha))
 			if h.cfg.numTy != "" {
 				m = canonNum(h.cfg.numTy, m)
 			}
-			if _, ok := h.present[h.canonKey(m)]; ok {
-				continue
-			}
-			h.s.exec("get", h.id, m)
-			if i%3 == 0 {
-				h.remove(m)
-				h.s.exec("size", h.id)
-			}
-			h.s.tr.stats["probe-sweep"]++
+			probe(m, i)
 		}
 	}
 }
